@@ -22,6 +22,7 @@ RULE = ("Hypothesis: 1-4 integer-tick well-formed single-channel sequences (arbi
         "sequences, a signature on a sequence other than the meta target, and a simultaneous event pair. Distinct by digest.")
 RULE = RULE + " Round e: signature values from a two-value pool per case (A, B, A across sequences)."
 RULE = RULE + " Round h: Sequence.save, objects saved before, objects saved / edited in place / saved again."
+RULE = RULE + " Round i: the file parsed once and loaded twice from the parsed object."
 ASSUMPTIONS = ["mido's MIDI file writer/reader is trusted", "trailing rests are not stored by the writer and not part of the statement"]
 TIERS = {"quick": dict(shards=8, examples=400, alt_ppqn=[480], alt_shards=2),
          "thorough": dict(shards=16, examples=5000, alt_ppqn=[480, 7, 1000], alt_shards=2)}
@@ -62,7 +63,7 @@ def _case(draw):
         end = max([n[3] for n in notes] + [m[1] for m in meta] + [0])
         spec["pad"] = draw(st.one_of(st.none(), st.just(end + draw(st.integers(0, 30)))))
         seqs.append(spec)
-    return {"seqs": seqs, "target": draw(st.integers(0, k - 1)),
+    return {"seqs": seqs, "target": draw(st.integers(0, k - 1)), "load": draw(st.sampled_from(["path", "path", "path", "parsed_twice"])),
             "how": draw(st.sampled_from(["sequences_save", "sequences_save", "saved_before", "single_save", "saved_then_edited"]))}
 
 
@@ -123,7 +124,14 @@ def check(case):
             out.fail(f"save-raises:{type(e).__name__}", f"{e}")
             return out
         try:
-            loaded = Sequence.sequences_load(file_path=path, target_meta_track_index=target)
+            if case.get("load") == "parsed_twice":
+                from pbt.sut import MidiFile
+                out.label("load:parsed-object-second-time")
+                mf = MidiFile.open(path)
+                Sequence.sequences_load(midi_file=mf, target_meta_track_index=target)
+                loaded = Sequence.sequences_load(midi_file=mf, target_meta_track_index=target)
+            else:
+                loaded = Sequence.sequences_load(file_path=path, target_meta_track_index=target)
         except Exception as e:
             out.fail(f"load-raises:{type(e).__name__}", f"{e}")
             return out
